@@ -1,4 +1,4 @@
-import MpVerif.C01.LemmasConvert10
+import MpVerif.C01.LemmasConvert15
 import MpVerif.C01.PropsObjective
 /-!
 # C01 — the reference converter is correct (property theorems only; round 5, audit item [HIGH])
@@ -9,16 +9,17 @@ linear objective over nested abs / max / min / if-then-else / count / comparison
 the delivered blocks.  The theorems below speak about **the NL model's own semantics** `NLModel.sat` (expression trees evaluated
 directly) on one side and the delivered model on the other; no hypothesis is a per-run check on the C++ output.
 
-`InFragment m cfg` is a *decidable* predicate of the input: every variable leaf is a model variable (`m.vok`) and the converter's
-output passes its own well-formedness checks (`ConvOut.checks`: creation order, every new variable defined, bounds as created,
-logical arguments binary, root data finite, covering contexts).  The checks are evaluated by Lean on the converter's own output
-(`drv_c01 convert … ` prints `checks=`); proving them once and for all from the definition of `convert` is the remaining step
-(the value-correctness of flattening, soundness of the created bounds, the step properties and the composition are proved).
+`InFragment m cfg` is a *decidable* predicate of the input: every variable leaf is a model variable (`m.vok`), the root data are
+finite (`ConvOut.checksSem`), and for the linear acceptance set `ConvOut.checksLin` (no gadget refuses — every big-M constant finite —,
+`cvt:bigM` unset, comparisons integer-typed with integer right-hand side, non-empty max/min, emitted rows local).
+Everything else `C01_compose` needs about the flat model — creation order, every new index defined, bounds as created, typing of
+logical arguments, index ranges, **covering contexts** (`CtxCovers`, `ObjCovers`) — is **proved for every input**
+(`checked_of_vok`: a mutual invariant over the flattening functions and the reverse-order context pass).
 -/
 namespace MpVerif.C01
 
 def InFragment (m : NLModel) (cfg : Cfg) : Prop :=
-  m.vok = true ∧ (convert m cfg).checks m = true ∧ (cfg.acc = .linear → (convert m cfg).checksLin cfg = true)
+  m.vok = true ∧ (convert m cfg).checksSem = true ∧ (cfg.acc = .linear → (convert m cfg).checksLin cfg = true)
 
 instance (m : NLModel) (cfg : Cfg) : Decidable (InFragment m cfg) := inferInstanceAs (Decidable (_ ∧ _ ∧ (_ → _)))
 
@@ -181,8 +182,8 @@ theorem linear_hyps (m : NLModel) (cfg : Cfg) (hacc : cfg.acc = .linear) (hck : 
 theorem steps_hyps (m : NLModel) (cfg : Cfg) (hfr : InFragment m cfg) :
     Chain (convert m cfg).N ((convert m cfg).blocks.map Block.toStep) ∧
     (∀ s ∈ (convert m cfg).blocks.map Block.toStep, StepOK (convert m cfg).N (DomB (convert m cfg).N (convert m cfg).B) s) := by
-  obtain ⟨_, hc, hl⟩ := hfr
-  have hck := checks_sound m _ hc
+  obtain ⟨hv, hc, hl⟩ := hfr
+  have hck := checked_of_vok m cfg hv hc
   cases hacc : cfg.acc with
   | native => exact (native_hyps m cfg hacc hck).2
   | linear => exact linear_hyps m cfg hacc hck (hl hacc)
@@ -196,7 +197,7 @@ theorem C01_convert_equiv (m : NLModel) (cfg : Cfg) (x : Asg) (hfr : InFragment 
     m.sat x ↔ ∃ y, DeliveredC (convert m cfg) x y := by
   obtain ⟨hchain, hok⟩ := steps_hyps m cfg hfr
   obtain ⟨hv, hc, _⟩ := hfr
-  have hck := checks_sound m _ hc
+  have hck := checked_of_vok m cfg ‹m.vok = true› hc
   have hperm := (blocks_perm m cfg).1
   have hwf : WF m.n0 (convert m cfg).defs := hck.wf
   have hvarsN : ∀ d ∈ (convert m cfg).defs, ∀ v ∈ d.f.vars, v < (convert m cfg).N := fun d hd v hv' =>
@@ -236,7 +237,7 @@ theorem C01_convert_objective (m : NLModel) (cfg : Cfg) (x : Asg) (hfr : InFragm
       (∀ y, DeliveredC (convert m cfg) x y → noWorse s (e.eval x) (o.val y)) := by
   obtain ⟨hchain, hok⟩ := steps_hyps m cfg hfr
   obtain ⟨hv, hc, _⟩ := hfr
-  have hck := checks_sound m _ hc
+  have hck := checked_of_vok m cfg ‹m.vok = true› hc
   have hperm := (blocks_perm m cfg).1
   have hwf : WF m.n0 (convert m cfg).defs := hck.wf
   have hvarsN : ∀ d ∈ (convert m cfg).defs, ∀ v ∈ d.f.vars, v < (convert m cfg).N := fun d hd v hv' =>
